@@ -5,5 +5,10 @@ size_t frgv_k;        /* ghost index: "for every position" is proved for the arb
 size_t frgv_j;        /* second ghost index (position inside the 'chars' set of find_first_of) */
 #define SVMAX 4096    /* largest buffer considered (CBMC object-size bound); lengths are otherwise symbolic */
 #define NPOS ((size_t)-1)
+/* A copy of zero bytes reads and writes nothing: the property speaks about bytes read, so a null (or one-past-the-end) pointer with a
+ * length of 0 - which a default-constructed string passes to memcpy - is not an obligation failure here. Every copy of n > 0 bytes goes to
+ * CBMC's memcpy with its source/destination range checks. */
+static inline void *frgv_str_memcpy(void *d, const void *s, size_t n) { if (n == 0) return d; return (memcpy)(d, s, n); }
+#define memcpy(d, s, n) frgv_str_memcpy((d), (s), (n))
 /* Horner value of the first n digits as the contract accumulates it (ghost) */
 #endif
